@@ -258,7 +258,7 @@ func (r *realRun) rpcQuery(q *Qry, fb, tb *BID, pre []*Blk) {
 			}
 		}
 		for _, cfg := range rpcCfgs {
-			r.rpcPages(v, q, &f, &t, cfg, preWords, spec)
+			r.rpcPages(v, q, &f, &t, cfg, preWords, spec, len(usePre))
 		}
 	}
 	r.rpc.sync.pre = nil
@@ -266,13 +266,14 @@ func (r *realRun) rpcQuery(q *Qry, fb, tb *BID, pre []*Blk) {
 
 // all pages of one request through version v, compared page by page with the model and, concatenated, with
 // the naive scan
-func (r *realRun) rpcPages(v string, q *Qry, f, t *bidView, cfg pcfg, preWords string, spec []string) {
+func (r *realRun) rpcPages(v string, q *Qry, f, t *bidView, cfg pcfg, preWords string, spec []string, npre int) {
 	limit := ^uint(0)
 	if cfg.limit > 0 {
 		limit = uint(cfg.limit)
 	}
 	r.rpc.h.WithFilterLimit(limit)
 	var all []string
+	var seq []string
 	token, tb, tc := "", "0", "0"
 	maxPages := len(spec) + len(r.naive) + 8
 	desc := func() string {
@@ -337,6 +338,8 @@ func (r *realRun) rpcPages(v string, q *Qry, f, t *bidView, cfg pcfg, preWords s
 			r.fail("rpc:"+v+":"+impl, desc()+": "+raw, false)
 			return
 		}
+		seq = append(seq, fmt.Sprintf("%d:%s:%s", len(rep.Result.Events), nb, nc))
+		r.countToken(nb, nc, len(rep.Result.Events), uint64(len(r.naive)), npre)
 		if nb == "0" && nc == "0" {
 			break
 		}
@@ -353,6 +356,7 @@ func (r *realRun) rpcPages(v string, q *Qry, f, t *bidView, cfg pcfg, preWords s
 		r.fail("rpc:"+v+":unknown-block-accepted", desc(), false)
 		return
 	}
+	r.checkPaging(fmt.Sprintf("pgseqr %s %s %d %d %d %d", f.word, t.word, cfg.chunk, cfg.limit, len(spec), npre), seq, desc())
 	if !eqS(all, spec) {
 		kind := diffKind(all, spec)
 		class := "rpc:" + v + ":" + kind
